@@ -14,9 +14,13 @@ pub fn discover_local_files(root: &Path) -> Result<Vec<PathBuf>, Box<dyn std::er
         for entry in entries {
             let entry = entry?;
             let path = entry.path();
-            if path.is_dir() && !path.is_symlink() {
+            // The entry's own type, as the directory reports it: `Path::is_dir` / `is_file` answer
+            // `false` when the path cannot be examined (e.g. it is longer than PATH_MAX), which
+            // silently dropped such entries from the listing while the run still reported success.
+            let ft = entry.file_type()?;
+            if ft.is_dir() {
                 dirs.push(path);
-            } else if path.is_file() {
+            } else if ft.is_file() || (ft.is_symlink() && path.is_file()) {
                 let rel = path.strip_prefix(root)?.to_path_buf();
                 files.push(rel);
             }
